@@ -224,6 +224,14 @@ pub fn random_script(rng: &mut Rng, max_len: usize) -> Vec<Step> {
             st.wait = true;
         }
     }
+    if rng.chance(200) {
+        // frames that carry the optional Content-Type header, before or after Content-Length
+        for st in s.steps.iter_mut() {
+            if rng.chance(500) {
+                st.hdr = 1 + rng.below(2) as u8;
+            }
+        }
+    }
     s.steps
 }
 
@@ -231,7 +239,7 @@ fn frame_ends(script: &[Step]) -> (Vec<usize>, usize) {
     let mut ends = vec![];
     let mut off = 0;
     for st in script {
-        off += frame_of(&st.op).len();
+        off += frame_of(st).len();
         ends.push(off);
     }
     (ends, off)
@@ -268,8 +276,13 @@ pub fn generate(seed: u64, idx: u64) -> Scenario {
                 }
                 _ => rng.below(total + 1),
             };
-            sc.faults.push(Fault::Eof { at_byte: at });
-            sc.label = "random lifecycle + eof".into();
+            if rng.chance(250) {
+                sc.faults.push(Fault::ReadError { at_byte: at });
+                sc.label = "random lifecycle + read error".into();
+            } else {
+                sc.faults.push(Fault::Eof { at_byte: at });
+                sc.label = "random lifecycle + eof".into();
+            }
         }
         4 => {
             sc.faults.push(Fault::Epipe {
@@ -319,14 +332,17 @@ fn corpus(seed: u64, k: u64) -> Vec<Step> {
 /// Systematic sweep: end of input after every byte prefix of the corpus sessions.
 pub fn sweep_sizes(seed: u64, corpus_n: u64) -> Vec<(u64, usize)> {
     (0..corpus_n)
-        .map(|k| (k, frame_ends(&corpus(seed, k)).1 + 1))
+        .map(|k| (k, 2 * (frame_ends(&corpus(seed, k)).1 + 1)))
         .collect()
 }
 
 pub fn sweep(seed: u64, k: u64, at: usize) -> Scenario {
+    // the second pass over the same prefixes ends the stream with a read error instead
+    let n = frame_ends(&corpus(seed, k)).1 + 1;
+    let (at, err) = if at >= n { (at - n, true) } else { (at, false) };
     Scenario {
         property: ID.into(),
-        label: format!("sweep corpus {k}: eof after byte {at}"),
+        label: format!("sweep corpus {k}: {} after byte {at}", if err { "read error" } else { "eof" }),
         seed,
         knobs: Knobs::shipped(),
         schedule: Schedule {
@@ -335,7 +351,7 @@ pub fn sweep(seed: u64, k: u64, at: usize) -> Scenario {
         },
         script: corpus(seed, k),
         segmentation: Segmentation::Frames,
-        faults: vec![Fault::Eof { at_byte: at }],
+        faults: vec![if err { Fault::ReadError { at_byte: at } } else { Fault::Eof { at_byte: at } }],
         close_at_end: true,
     }
 }
@@ -357,10 +373,12 @@ pub fn judge(sc: &Scenario) -> Judgement {
         .filter(|(_, e)| **e <= stream_end)
         .map(|(s, _)| &s.op)
         .collect();
-    let clean = stream_end == 0 || ends.contains(&stream_end) ;
+    // a stream that ends with an I/O error is an abnormal end wherever it happens
+    let clean = !rec.read_error && (stream_end == 0 || ends.contains(&stream_end));
     let exp = model(&delivered, clean);
     j.probe("eof on a frame boundary", (rec.eof_at.is_some() && clean) as u64);
     j.probe("eof inside a frame", (rec.eof_at.is_some() && !clean) as u64);
+    j.probe("stdin ended with a read error", rec.read_error as u64);
     j.probe("epipe fired", rec.epipe_fired as u64);
     j.probe("exit without shutdown", matches!(exp.end, ModelEnd::Exit(1)) as u64);
     j.probe("exit after shutdown", matches!(exp.end, ModelEnd::Exit(0)) as u64);
